@@ -1,48 +1,62 @@
 #!/usr/bin/env python3
 """bin/mk_dependency_ties.py – writes Props/<Q>TieDep.lean: re-statements (`theorem Q.dep_P_<file>… : type_of% P.src_<file>… := P.src_<file>…`)
-of the function-outline ties of source files a property DEPENDS on without being anchored in them (the store under the
-runtime, the segment and the planner under the query results, the map under the decoders, the writer and reader under the
-nodes …). A change there can break Q although no file of Q's anchors changed (eleventh-round seeded changes c09k, c10k,
-c17k were missed exactly so); with these theorems Q's check stops checking as well and looks for a failing input.
-Run by hand (it only reads Props/*Tie*.lean); never by bin/check."""
-import re, glob, os, collections
+of the function-outline ties of every source file a property DEPENDS on without being anchored in it. The rule (since the
+twelfth round of seeded changes; before that a hand-written table, which missed pkg/process/local.go under C04 and
+pkg/types/slice.go under C15): a property depends on
+  (a) every file of the PACKAGES its anchored files live in (code of the same package reaches private fields), and
+  (b) every file of the packages those packages import, transitively, inside github.com/siyul-park/uniflow/pkg
+      (`go list -deps`),
+plus a few reverse edges written down by hand (EXTRA: a harness that drives the property through a higher layer).
+A change in any such file stops Q's theorems from checking as well; Q's check then looks for a failing input.
+Run by hand with /repo clean (it reads Props/*Tie*.lean, properties.jsonl and `go list`); never by bin/check."""
+import re, glob, os, collections, json, subprocess
 V = '/verif/lean/Uniflow/Props'
-# property -> [(primary property, file key)]
-DEP = {
- 'C02': [('C01','packet_packet'),('C01','packet_reader'),('C01','packet_writer'),('C05','port_inport'),('C05','port_outport'),('C04','process_process'),('C01','packet_hook'),('C05','port_openhook'),('C05','port_closehook'),('C05','port_listener')],
- 'C03': [('C01','packet_packet'),('C02','node_onetomany'),('C02','node_manytoone'),('C02','packet_readgroup'),('C04','process_exithook'),('C01','packet_hook'),('C05','port_openhook'),('C05','port_closehook'),('C05','port_listener'),('C02','node_node'),('C02','node_port')],
- 'C05': [('C04','process_process'),('C04','process_exithook'),('C02','node_onetoone'),('C02','node_onetomany'),('C02','node_manytoone'),('C01','packet_packet'),('C01','packet_hook'),('C02','node_node'),('C02','node_port')],
- 'C06': [('C07','symbol_loadhook'),('C07','symbol_unloadhook'),('C05','port_closehook'),('C08','node_proxy'),('C08','symbol_cluster')],
- 'C07': [('C06','symbol_symbol'),('C05','port_inport'),('C05','port_outport'),('C08','node_proxy'),('C08','symbol_cluster')],
- 'C08': [('C06','symbol_symbol'),('C07','symbol_loadhook'),('C07','symbol_unloadhook'),('C07','hook_hook'),('C05','port_inport'),('C05','port_outport'),('C01','packet_packet'),('C01','packet_reader'),('C01','packet_writer'),('C05','port_listener'),('C05','port_openhook'),('C05','port_closehook'),('C01','packet_hook')],
- 'C09': [('C10','store_store'),('C12','store_segment'),('C11','store_executionplan'),('C10','store_helper'),('C10','store_cursor'),('C06','symbol_table'),('C15','types_map'),('C18','template_template'),('C18','template_node')],
- 'C10': [('C12','store_segment'),('C11','store_executionplan')],
- 'C11': [('C10','store_helper'),('C10','store_cursor'),('C15','types_map')],
- 'C12': [('C10','store_helper'),('C11','store_executionplan'),('C15','types_map')],
- 'C13': [('C12','store_segment'),('C10','store_helper'),('C15','types_map')],
- 'C16': [('C15','types_map'),('C09','scheme_codec'),('C09','scheme_builder')],
- 'C17': [('C15','types_map')],
- 'C19': [('C02','packet_tracer'),('C04','process_process'),('C06','symbol_symbol'),('C01','packet_packet'),('C01','packet_hook'),('C05','port_openhook'),('C05','port_closehook'),('C05','port_listener')],
-}
+env = dict(os.environ, GOFLAGS='-mod=mod', GOPROXY='off', GOSUMDB='off', GOTOOLCHAIN='local', GOWORK='off')
+def deps(pkg):
+    out = subprocess.run(['go', 'list', '-deps', './pkg/' + pkg], cwd='/repo', env=env, capture_output=True, text=True).stdout
+    return {l.split('/pkg/')[1] for l in out.split() if 'siyul-park/uniflow/pkg/' in l}
+anchors = {}
+for l in open('/verif/properties.jsonl'):
+    p = json.loads(l)
+    anchors[p['id']] = p['anchors']['files']
+# reverse edges: the harness of Q drives Q's code through these packages
+EXTRA = {'C03': ['node', 'symbol'], 'C05': ['node', 'runtime'], 'C13': ['store'], 'C19': ['symbol', 'node'], 'C08': ['hook'], 'C07': ['hook'], 'C06': ['hook']}
 have = collections.defaultdict(list)   # (P, key) -> [(module, theorem name)]
 for f in sorted(glob.glob(V + '/*Tie*.lean')):
     mod = os.path.basename(f)[:-5]
-    if mod.endswith('TieRe') or mod.endswith('TieRe2') or mod.endswith('TieDep'):
+    if re.search(r'Tie(Re\d*|Dep)$', mod):
         continue
     for m in re.finditer(r'^theorem (C\d\d)\.src_(\w+?)_as_modelled(_\d+)?\b', open(f).read(), re.M):
-        if not mod.startswith(m.group(1)):
-            continue
-        have[(m.group(1), m.group(2))].append((mod, m.group(0).split()[1]))
-for q, deps in sorted(DEP.items()):
+        if mod.startswith(m.group(1)):
+            have[(m.group(1), m.group(2))].append((mod, m.group(0).split()[1]))
+own = collections.defaultdict(set)     # Q -> file keys already stated or re-stated under Q's name (src_ theorems)
+for f in sorted(glob.glob(V + '/*.lean')):
+    if f.endswith('TieDep.lean'):
+        continue
+    for m in re.finditer(r'^theorem (C\d\d)\.src_(\w+?)_as_modelled(_\d+)?\b', open(f).read(), re.M):
+        own[m.group(1)].add(m.group(2))
+total = 0
+for q in sorted(anchors):
+    if q == 'C20':
+        continue   # C20 is anchored in every package; its tie is the lock-fact table
+    pk0 = {a.split('/')[1] for a in anchors[q]}
+    closure = set(pk0) | set(EXTRA.get(q, []))
+    for p in list(closure):
+        closure |= deps(p)
     mods, lines = [], []
-    for p, key in deps:
-        if not have[(p, key)]:
-            raise SystemExit(f'no tie theorem for {p} {key}')
-        for mod, name in sorted(have[(p, key)], key=lambda x: x[1]):
+    for (p, key), items in sorted(have.items()):
+        if p == q or key.split('_')[0] not in closure:
+            continue
+        if key in own[q] and not any(pp != q and kk == key and pp != p for (pp, kk) in have):
+            continue   # Q already re-states this file (TieRe) – only one primary exists
+        for mod, name in sorted(items, key=lambda x: x[1]):
             if mod not in mods: mods.append(mod)
             lines.append(f"theorem {q}.dep_{name.replace('.src_', '_')} : type_of% {name} := {name}")
-    out = ("/-\n" + q + " – re-statements of the function-outline ties of source files this property DEPENDS on without being anchored in\n"
-           "them (bin/mk_dependency_ties.py; hand-run): a source change there is reported for " + q + " as well.\n-/\n"
+    out = ("/-\n" + q + " – re-statements of the function-outline ties of the source files this property DEPENDS on without being anchored in\n"
+           "them: the other files of its packages and every package they import (bin/mk_dependency_ties.py; hand-run). A source change\n"
+           "there is reported for " + q + " as well.\n-/\n"
            + ''.join(f'import Uniflow.Props.{m}\n' for m in mods) + '\n' + '\n'.join(lines) + '\n')
     open(f'{V}/{q}TieDep.lean', 'w').write(out)
-    print(q, len(lines), 'theorems from', mods)
+    total += len(lines)
+    print(q, sorted(closure), len(lines), 'theorems')
+print('total', total)
